@@ -366,7 +366,7 @@ pub fn gen_wsdl_set_opt(ch: &mut Chooser, tag: u64, wild: bool) -> (InputSet, Ge
         }
         let hdr = if n_headers > 0 { format!("<soapenv:Header>{header}</soapenv:Header>") } else { String::new() };
         let request = format!("<?xml version=\"1.0\" encoding=\"UTF-8\"?>{env_open}{hdr}<soapenv:Body><tns:{name}Request>{req_body}</tns:{name}Request></soapenv:Body></soapenv:Envelope>");
-        let response = format!("<?xml version=\"1.0\" encoding=\"UTF-8\"?>{env_open}<soapenv:Body><tns:{name}Response><tns:result>done {o}</tns:result><tns:count>{}</tns:count></tns:{name}Response></soapenv:Body></soapenv:Envelope>", o + 3);
+        let response = format!("<?xml version=\"1.0\" encoding=\"UTF-8\"?>{env_open}<soapenv:Body><tns:{name}Response><tns:result>done {o} \u{fc}\u{f6}\u{e4} \u{4f60}\u{597d}\u{4e16}\u{754c} \u{20ac}\u{20ac} \u{43f}\u{440}\u{438}\u{43d}\u{44f}\u{442}\u{43e}</tns:result><tns:count>{}</tns:count></tns:{name}Response></soapenv:Body></soapenv:Envelope>", o + 3);
         mutations.truncate(10);
         instances.insert(name.clone(), serde_json::json!({"request": request, "response": response, "mutations": mutations}));
         ops.push(GenOp { name, has_header: n_headers > 0, parts_attr, n_parts: 1 + n_headers });
